@@ -354,10 +354,12 @@ structure Result where
   outcome : Outcome
   obs : List Obs
 
-/-- Is a detour destination a function?  (Convention shared with the harness: function
-destinations are named `fn…`, classes are not.) -/
+/-- Names of the detour destinations that are functions (shared with the harness; everything else
+is a class). -/
+def fnDests : List String := ["fn1", "fn2"]
+
 def isFnDest : Val → Bool
-  | .atom (.str d) => d.startsWith "fn"
+  | .atom (.str d) => fnDests.contains d
   | _ => false
 
 def topFrame (m : Mgr) (t : Nat) (w : World) : Frame :=
